@@ -442,11 +442,13 @@ class Class(object):
         
     def __delattr__(self, name):
         uname = name.upper()
-        for name in self.__dict__:
-            if uname == name.upper():
+        for key in self.__dict__:
+            if uname == key.upper():
                 break
+        else:
+            raise AttributeError(name)
 
-        del self.__dict__[name]
+        del self.__dict__[key]
     
     def __str__(self):
         values = list()
